@@ -759,8 +759,7 @@ def selftest(tier: str) -> int:
         def body(chk: Check) -> None:
             model_check_and_replay(chk, world, max_entries=2, small=[101, 203, 205, 117, 10101], sfx=[1, 2],
                                    codes=light)
-            startup_checks(chk, world, 8)
-            validate_sessions(chk, world, 60)
+            validate_sessions(chk, world, 60)       # (the start-up subprocess cannot see in-process patches)
 
         rc = run_probes(PID, probes, body)
 
